@@ -25,6 +25,7 @@ func PlayMulti(beh M, rng *rand.Rand, proj *Projection) ([][]M, error) {
 	}
 	s := NewSched(x)
 	s.OnlyPark = map[string]bool{"h.enter": true}
+	s.ParkOnce = map[string]string{}
 	x.Sched = s
 	wire.SetVerifHook(s.Hook)
 	defer wire.SetVerifHook(nil)
@@ -58,6 +59,21 @@ func PlayMulti(beh M, rng *rand.Rand, proj *Projection) ([][]M, error) {
 		id := 1000*(c+1) + nid
 		oid := rowTypes[(c+nid)%len(rowTypes)]
 		col := []any{M{"name": fmt.Sprintf("v%d", id), "oid": oid}}
+		switch kind {
+		case "x":
+			// a statement whose first row cannot be encoded (the error is reported to the handler), then a good row
+			st := M{"id": id, "cols": col, "oids": []any{}, "prog": []any{M{"op": "row", "cells": []any{M{"c": "bad"}}}, M{"op": "row", "cells": []any{M{"c": "v"}}}, M{"op": "complete", "tag": "X"}, M{"op": "ret", "r": "nil"}}}
+			send(c, M{"t": "Q", "q": M{"id": id, "parse": "ok", "stmts": []any{st}}}, true)
+			return
+		case "e":
+			// the connection is held right after its row value was encoded, before the value is put on the wire
+			s.mu.Lock()
+			s.ParkOnce[actor(c)] = "encode.exit"
+			s.mu.Unlock()
+			st := M{"id": id, "cols": col, "oids": []any{}, "prog": []any{M{"op": "row", "cells": []any{M{"c": "v"}}}, M{"op": "complete", "tag": "E"}, M{"op": "ret", "r": "nil"}}}
+			send(c, M{"t": "Q", "q": M{"id": id, "parse": "ok", "stmts": []any{st}}}, true)
+			return
+		}
 		if kind == "g" {
 			// a simple Query whose statement function parks at a gate, then writes a row
 			st := M{"id": id, "cols": col, "oids": []any{}, "prog": []any{M{"op": "gate", "p": "h.enter"}, M{"op": "row", "cells": []any{M{"c": "v"}}}, M{"op": "complete", "tag": "G"}, M{"op": "ret", "r": "nil"}}}
